@@ -1,9 +1,12 @@
 package main
 
 import (
+	"fmt"
 	"go/ast"
+	"go/parser"
 	"go/token"
 	"go/types"
+	"strconv"
 	"strings"
 )
 
@@ -1164,6 +1167,54 @@ func c16r14(p *Program, r *Report) {
 				found = true
 				return true
 			}
+			// dispatch through a constant table whose entries are the two handlers: table[change](s, ..)
+			tableOf := func(e ast.Expr) ast.Expr {
+				e = ast.Unparen(e)
+				if ix, isIx := e.(*ast.IndexExpr); isIx {
+					return ix.X
+				}
+				// h, ok := table[change]; h(..)
+				if id, isId := e.(*ast.Ident); isId {
+					if fiU := p.enclosingDecl(c); fiU != nil {
+						if d := localDefMulti(info, fiU, id); d != nil {
+							if ix, isIx := ast.Unparen(d).(*ast.IndexExpr); isIx {
+								return ix.X
+							}
+						}
+					}
+				}
+				return nil
+			}
+			if tab := tableOf(c.Fun); tab != nil {
+				if tid, isId := ast.Unparen(tab).(*ast.Ident); isId {
+					if tv, isVar := info.Uses[tid].(*types.Var); isVar && tv.Pkg() != nil && tv.Parent() == tv.Pkg().Scope() {
+						for _, pkg := range p.Pkgs {
+							if pkg.Types != tv.Pkg() {
+								continue
+							}
+							for _, f := range pkg.Syntax {
+								ast.Inspect(f, func(y ast.Node) bool {
+									vs, isVS := y.(*ast.ValueSpec)
+									if !isVS {
+										return true
+									}
+									for i, nm := range vs.Names {
+										if pkg.TypesInfo.Defs[nm] == types.Object(tv) && i < len(vs.Values) {
+											ast.Inspect(vs.Values[i], func(z ast.Node) bool {
+												if sel, isSel := z.(*ast.SelectorExpr); isSel && (sel.Sel.Name == "handleNodeUp" || sel.Sel.Name == "handleNodeDown") {
+													found = true
+												}
+												return true
+											})
+										}
+									}
+									return true
+								})
+							}
+						}
+					}
+				}
+			}
 			if depth < 2 {
 				if fn := calleeOf(info, c); fn != nil {
 					if h := p.FuncOf(fn); h != nil && h.Pkg == p.Root && h.Decl.Body != nil && reachesStatus(h.Decl.Body, depth+1) {
@@ -1238,130 +1289,152 @@ func c16r15(p *Program, r *Report) {
 	g := p.GraphOf(fi)
 	info := g.Info
 	facts := g.GuardFacts()
-	// the early `return false` that follows the search: its condition
-	var notFound *ast.IfStmt
-	var searchEnd token.Pos
-	ast.Inspect(fi.Decl.Body, func(x ast.Node) bool {
-		switch l := x.(type) {
-		case *ast.ForStmt:
-			if l.End() > searchEnd {
-				searchEnd = l.End()
-			}
-		case *ast.RangeStmt:
-			if l.End() > searchEnd {
-				searchEnd = l.End()
-			}
+	// where the shortened list is published
+	var store *ast.CallExpr
+	for _, c := range callsIn(fi.Decl.Body) {
+		if strings.HasSuffix(calleeName(info, c), ".Store") && store == nil {
+			store = c
 		}
-		return true
-	})
-	ast.Inspect(fi.Decl.Body, func(x ast.Node) bool {
-		ifs, ok := x.(*ast.IfStmt)
-		if !ok || ifs.Pos() < searchEnd || notFound != nil || len(ifs.Body.List) == 0 {
-			return true
-		}
-		if rs, isR := ifs.Body.List[len(ifs.Body.List)-1].(*ast.ReturnStmt); isR && len(rs.Results) == 1 {
-			if tv, has := info.Types[rs.Results[0]]; has && tv.Value != nil && tv.Value.String() == "false" {
-				notFound = ifs
-			}
-		}
-		return true
-	})
-	if notFound == nil || searchEnd == token.NoPos {
-		r.Unresolved("(*cowHostList).remove: no search loop followed by an early `return false`")
+	}
+	if store == nil {
+		r.Unresolved("(*cowHostList).remove never stores a new list")
 		return
 	}
-	// the variables the condition depends on
-	okAll, nvar := true, 0
-	why := ""
-	ast.Inspect(notFound.Cond, func(x ast.Node) bool {
-		id, ok := x.(*ast.Ident)
-		if !ok {
+	// sentinels: flags / indexes assigned inside the search loop
+	type sentinel struct {
+		v    *types.Var
+		init ast.Expr
+	}
+	var sents []sentinel
+	okAssign, whyAssign := true, ""
+	seen := map[*types.Var]bool{}
+	ast.Inspect(fi.Decl.Body, func(y ast.Node) bool {
+		as, isAs := y.(*ast.AssignStmt)
+		if !isAs || !p.inLoop(as, fi.Decl) {
 			return true
 		}
-		v, isVar := info.Uses[id].(*types.Var)
-		if !isVar || v.IsField() {
-			return true
-		}
-		// only flags and indexes are sentinels (a test on the length of the list that was built is judged by C11.R3)
-		if b, isB := v.Type().Underlying().(*types.Basic); !isB || b.Info()&(types.IsBoolean|types.IsInteger) == 0 {
-			return true
-		}
-		// skip variables that are never assigned inside the search loop (sizes, the list itself)
-		assignedInLoop := false
-		var initVal ast.Expr
-		ast.Inspect(fi.Decl.Body, func(y ast.Node) bool {
-			as, isAs := y.(*ast.AssignStmt)
-			if !isAs {
-				return true
+		for _, l := range as.Lhs {
+			lid, isId := l.(*ast.Ident)
+			if !isId {
+				continue
 			}
-			for i, l := range as.Lhs {
-				lid, isId := l.(*ast.Ident)
-				if !isId || (info.Defs[lid] != types.Object(v) && info.Uses[lid] != types.Object(v)) {
-					continue
+			v, _ := info.Uses[lid].(*types.Var)
+			if v == nil {
+				continue
+			}
+			if b, isB := v.Type().Underlying().(*types.Basic); !isB || b.Info()&(types.IsBoolean|types.IsInteger) == 0 {
+				continue
+			}
+			// loop counters are not sentinels
+			if fs, isFor := p.enclosing(as, fi.Decl, func(n ast.Node) bool { _, is := n.(*ast.ForStmt); return is }).(*ast.ForStmt); isFor && (fs.Post == ast.Stmt(as) || fs.Init == ast.Stmt(as)) {
+				continue
+			}
+			f, _ := facts.Before(as)
+			matched := false
+			for atom, val := range f.m {
+				if val && (strings.Contains(atom, ".Equal(") || strings.Contains(atom, " == ")) && !strings.Contains(atom, "len(") {
+					matched = true
 				}
-				if p.inLoop(as, fi.Decl) {
-					assignedInLoop = true
-					// only where an element matched: the element comparison is known true
-					f, _ := facts.Before(as)
-					matched := false
-					for atom, val := range f.m {
-						if val && (strings.Contains(atom, ".Equal(") || strings.Contains(atom, " == ")) && !strings.Contains(atom, "len(") {
-							matched = true
+			}
+			if !matched {
+				okAssign, whyAssign = false, lid.Name+" is changed at "+p.Pos(as)+" where no element is known to have matched"
+			}
+			if !seen[v] {
+				seen[v] = true
+				sents = append(sents, sentinel{v: v})
+			}
+		}
+		return true
+	})
+	for i := range sents {
+		ast.Inspect(fi.Decl.Body, func(y ast.Node) bool {
+			switch z := y.(type) {
+			case *ast.AssignStmt:
+				if p.inLoop(z, fi.Decl) || len(z.Lhs) != len(z.Rhs) {
+					return true
+				}
+				for k, l := range z.Lhs {
+					if lid, isId := l.(*ast.Ident); isId && (info.Defs[lid] == types.Object(sents[i].v) || info.Uses[lid] == types.Object(sents[i].v)) && sents[i].init == nil {
+						sents[i].init = z.Rhs[k]
+					}
+				}
+			case *ast.ValueSpec:
+				for k, nm := range z.Names {
+					if info.Defs[nm] == types.Object(sents[i].v) && sents[i].init == nil {
+						if k < len(z.Values) {
+							sents[i].init = z.Values[k]
+						} else if b, isB := sents[i].v.Type().Underlying().(*types.Basic); isB && b.Info()&types.IsBoolean != 0 {
+							sents[i].init = ast.NewIdent("false")
+						} else {
+							sents[i].init = &ast.BasicLit{Kind: token.INT, Value: "0"}
 						}
 					}
-					if !matched {
-						okAll, why = false, lid.Name+" is changed at "+p.Pos(as)+" where no element is known to have matched"
-					}
-				} else if len(as.Lhs) == len(as.Rhs) {
-					initVal = as.Rhs[i]
 				}
 			}
 			return true
 		})
-		if !assignedInLoop {
-			return true
-		}
-		nvar++
-		// the initial value makes the "not found" condition true
-		if initVal == nil {
-			okAll, why = false, id.Name+" has no initial value before the search"
-			return true
-		}
-		ev := &evalEnv{info: info, fi: fi, vars: map[string]int64{}, seen: map[types.Object]bool{}}
-		holds := false
-		switch iv := ast.Unparen(initVal).(type) {
-		case *ast.Ident:
-			if iv.Name == "false" || iv.Name == "true" {
-				// condition is the flag or its negation
-				c := ast.Unparen(notFound.Cond)
-				neg := false
-				if u, isU := c.(*ast.UnaryExpr); isU && u.Op == token.NOT {
-					neg, c = true, ast.Unparen(u.X)
-				}
-				if cid, isId := c.(*ast.Ident); isId && cid.Name == id.Name {
-					holds = (iv.Name == "true") != neg
-				}
-			}
-		}
-		if k, isK := constInt(info, initVal); isK {
-			if b, isB := ast.Unparen(notFound.Cond).(*ast.BinaryExpr); isB {
-				ev.vars[id.Name] = k
-				l, ok1 := ev.eval(b.X)
-				rr, ok2 := ev.eval(b.Y)
-				if ok1 && ok2 {
-					holds = cmpInt(l, b.Op, rr)
-				}
-			}
-		}
-		if !holds {
-			okAll, why = false, "with its initial value "+exprStr(initVal)+" the test `"+exprStr(notFound.Cond)+"` does not say 'not found'"
-		}
-		return true
-	})
-	if nvar == 0 {
-		r.OK(notFound, "(*cowHostList).remove leaves the list alone when the address is not in it", "the not-found test does not use a flag or index sentinel (it compares what was built with the original)")
+	}
+	if len(sents) == 0 {
+		r.OK(store, "(*cowHostList).remove leaves the list alone when the address is not in it", "the search uses no flag or index sentinel (it compares what was built with the original)")
 		return
 	}
-	r.Check(okAll, notFound, "(*cowHostList).remove leaves the list alone when the address is not in it", "the not-found test holds initially and its variable changes only where an element matched",
-		"removing an address that is not in the list is not recognised as 'not found' ("+why+"): an unrelated host (the first of the list) is dropped from the selection policy, e.g. when a DOWN event is followed by the removal of the same node")
+	// at the store, what is known about a sentinel must be false for its initial ("not found") value
+	f, _ := facts.Before(p.stmtOf(store, fi))
+	guarded, why := false, "the new list is stored at a point where nothing is known about the outcome of the search"
+	for _, se := range sents {
+		name := se.v.Name()
+		if se.init == nil {
+			continue
+		}
+		for atom, val := range f.m {
+			if !mentions(atom, name) {
+				continue
+			}
+			initTruth, okE := false, false
+			if atom == name {
+				if id, isId := ast.Unparen(se.init).(*ast.Ident); isId && (id.Name == "true" || id.Name == "false") {
+					initTruth, okE = id.Name == "true", true
+				}
+			} else if e, err := parser.ParseExpr(atom); err == nil {
+				if b, isB := e.(*ast.BinaryExpr); isB {
+					if k, isK := constInt(info, se.init); isK {
+						ev := &evalEnv{info: info, fi: fi, vars: map[string]int64{name: k}, seen: map[types.Object]bool{}}
+						lit := func(x ast.Expr) (int64, bool) {
+							if bl, isL := x.(*ast.BasicLit); isL {
+								if v, err := strconv.ParseInt(bl.Value, 0, 64); err == nil {
+									return v, true
+								}
+							}
+							if u, isU := x.(*ast.UnaryExpr); isU && u.Op == token.SUB {
+								if bl, isL := u.X.(*ast.BasicLit); isL {
+									if v, err := strconv.ParseInt(bl.Value, 0, 64); err == nil {
+										return -v, true
+									}
+								}
+							}
+							if id, isId := x.(*ast.Ident); isId && id.Name == name {
+								return k, true
+							}
+							return ev.eval(x)
+						}
+						l, ok1 := lit(b.X)
+						rr, ok2 := lit(b.Y)
+						if ok1 && ok2 {
+							initTruth, okE = cmpInt(l, b.Op, rr), true
+						}
+					}
+				}
+			}
+			if !okE {
+				continue
+			}
+			if initTruth != val {
+				guarded = true
+			} else {
+				why = "where the new list is stored `" + atom + "` is " + fmt.Sprint(val) + ", which the initial value " + exprStr(se.init) + " of " + name + " satisfies as well: a search that found nothing is not told apart from a hit"
+			}
+		}
+	}
+	r.Check(guarded && okAssign, store, "(*cowHostList).remove leaves the list alone when the address is not in it", "the store is reached only with the search's sentinel changed from its initial value, which happens only on a match",
+		"removing an address that is not in the list is not recognised as 'not found' ("+ifs(!okAssign, whyAssign, why)+"): an unrelated host (the first of the list) is dropped from the selection policy, e.g. when a DOWN event is followed by the removal of the same node")
 }
